@@ -418,6 +418,16 @@ def executePendingMarketOrders (fuel : Nat) (e : Engine M) : Engine M :=
       | some id => go f (executeOrder u e id) (i + 1)
   if e.toExecute.isEmpty then e else go fuel e 0
 
+/-- exits declared inside go_long / go_short: validated and copied to the shadow (spot longs may not declare them) -/
+def entryExits (e2 : Engine M) (r : Nat) (long spot : Bool) (declared : Option Rows) (isStop : Bool) : Engine M :=
+  if declared.isSome then
+    (if long ∧ spot then fail e2 .InvalidStrategy
+     else if ¬ validRows (fmt declared) then fail e2 .InvalidStrategy
+     else setStrat e2 r (fun s =>
+       if isStop then { s with shadow := { s.shadow with stopLoss := s.decl.stopLoss } }
+       else { s with shadow := { s.shadow with takeProfit := s.decl.takeProfit } }))
+  else e2
+
 /-- `_execute_long` / `_execute_short` -/
 def executeEntry (e : Engine M) (r : Nat) (long : Bool) (spot : Bool) : Engine M :=
   if e.err.isSome then e else
@@ -430,69 +440,73 @@ def executeEntry (e : Engine M) (r : Nat) (long : Bool) (spot : Bool) : Engine M
     if long then { s with decl := { s.decl with buy := some (fmt rows) }, shadow := { s.shadow with buy := some (fmt rows) } }
     else { s with decl := { s.decl with sell := some (fmt rows) }, shadow := { s.shadow with sell := some (fmt rows) } })
   -- take-profit / stop-loss declared in go_long/go_short
-  let e3 :=
-    if st.decl.takeProfit.isSome then
-      (if long ∧ spot then fail e2 .InvalidStrategy
-       else if ¬ validRows (fmt st.decl.takeProfit) then fail e2 .InvalidStrategy
-       else setStrat e2 r (fun s => { s with shadow := { s.shadow with takeProfit := s.decl.takeProfit } }))
-    else e2
+  let e3 := entryExits e2 r long spot st.decl.takeProfit false
   if e3.err.isSome then e3 else
-  let e4 :=
-    if st.decl.stopLoss.isSome then
-      (if long ∧ spot then fail e3 .InvalidStrategy
-       else if ¬ validRows (fmt st.decl.stopLoss) then fail e3 .InvalidStrategy
-       else setStrat e3 r (fun s => { s with shadow := { s.shadow with stopLoss := s.decl.stopLoss } }))
-    else e3
+  let e4 := entryExits e3 r long spot st.decl.stopLoss true
   if e4.err.isSome then e4 else
   submitEntries e4 r long (fmt rows)
+
+/-- `_check`, first part: should the resting entries be cancelled? -/
+def checkCancel (e : Engine M) (r : Nat) : Engine M :=
+  let sym := (routeOf e r).sym
+  if (entryOrders e sym).length > 0 ∧ (posOf e sym).qty = 0 then
+    let e' := logE e (Event.hook r "should_cancel_entry" (stratOf e r).index (priceOf e r) 0 (posOf e sym).pnl)
+    if u.shouldCancelEntry e r (stratOf e r).mem then executeCancel e' r else e'
+  else e
+
+/-- `_check`, second part: update_position with an open position -/
+def checkUpdate (e1 : Engine M) (r : Nat) : Engine M :=
+  if (posOf e1 (routeOf e1 r).sym).qty ≠ 0 then
+    detectModifications (runHook e1 r "update_position" (u.updatePosition e1 r)) r
+  else e1
+
+/-- `_check`, last part: with no position and no entry orders, ask for a new entry -/
+def checkEntry (e3 : Engine M) (r : Nat) (spot : Bool) : Engine M :=
+  let sym := (routeOf e3 r).sym
+  let e4 := resetStrategy e3 r
+  let st := stratOf e4 r
+  let sShort := u.shouldShort e4 r st.mem
+  let e5 := logE e4 (Event.hook r "should_short" st.index (priceOf e4 r) 0 (posOf e4 sym).pnl)
+  if spot ∧ sShort then fail e5 .InvalidStrategy else
+  let sLong := u.shouldLong e5 r st.mem
+  let e6 := logE e5 (Event.hook r "should_long" st.index (priceOf e5 r) 0 (posOf e5 sym).pnl)
+  if sShort ∧ sLong then fail e6 .Other
+  else if sLong then executeEntry u e6 r true spot
+  else if sShort then executeEntry u e6 r false spot
+  else e6
 
 /-- `_check` -/
 def check (fuel : Nat) (e : Engine M) (r : Nat) : Engine M :=
   if e.err.isSome then e else
   let sym := (routeOf e r).sym
-  let spot := e.w.kind = .spot
-  -- should cancel entry?
-  let e1 :=
-    if (entryOrders e sym).length > 0 ∧ (posOf e sym).qty = 0 then
-      let e' := logE e (Event.hook r "should_cancel_entry" (stratOf e r).index (priceOf e r) 0 (posOf e sym).pnl)
-      if u.shouldCancelEntry e r (stratOf e r).mem then executeCancel e' r else e'
-    else e
-  -- update position
-  let e2 :=
-    if (posOf e1 sym).qty ≠ 0 then
-      detectModifications (runHook e1 r "update_position" (u.updatePosition e1 r)) r
-    else e1
-  let e3 := executePendingMarketOrders u fuel e2
+  let spot : Bool := decide (e.w.kind = .spot)
+  let e3 := executePendingMarketOrders u fuel (checkUpdate u (checkCancel u e r) r)
   if e3.err.isSome then e3 else
-  if (posOf e3 sym).qty = 0 ∧ (entryOrders e3 sym) = [] then
-    let e4 := resetStrategy e3 r
-    let st := stratOf e4 r
-    let sShort := u.shouldShort e4 r st.mem
-    let e5 := logE e4 (Event.hook r "should_short" st.index (priceOf e4 r) 0 (posOf e4 sym).pnl)
-    if spot ∧ sShort then fail e5 .InvalidStrategy else
-    let sLong := u.shouldLong e5 r st.mem
-    let e6 := logE e5 (Event.hook r "should_long" st.index (priceOf e5 r) 0 (posOf e5 sym).pnl)
-    if sShort ∧ sLong then fail e6 .Other
-    else if sLong then executeEntry u e6 r true spot
-    else if sShort then executeEntry u e6 r false spot
-    else e6
+  if (posOf e3 sym).qty = 0 ∧ (entryOrders e3 sym) = [] then checkEntry u e3 r spot
   else e3
 
-/-- `_execute` -/
-def executeStrategy (fuel : Nat) (e : Engine M) (r : Nat) : Engine M :=
-  if e.err.isSome then e else
+/-- `_execute`, before `_check`: cache the price, call `before()` -/
+def beforeStep (e : Engine M) (r : Nat) : Engine M :=
   let rc := routeOf e r
   let price := (currentClose e rc.sym rc.tf).getD 0
   let e0 := setStrat e r (fun s => { s with cachedPrice := some price })
   let st := stratOf e0 r
-  let e1 := logE (setStrat e0 r (fun s => { s with mem := u.before e0 r st.mem }))
+  logE (setStrat e0 r (fun s => { s with mem := u.before e0 r st.mem }))
     (Event.hook r "before" st.index price (posOf e0 rc.sym).qty (posOf e0 rc.sym).pnl)
-  let e2 := check u fuel e1 r
-  if e2.err.isSome then e2 else
+
+/-- `_execute`, after `_check`: call `after()`, drop the cached price, advance the index -/
+def afterStep (e2 : Engine M) (r : Nat) : Engine M :=
+  let rc := routeOf e2 r
   let st2 := stratOf e2 r
   let e3 := logE (setStrat e2 r (fun s => { s with mem := u.after e2 r st2.mem }))
     (Event.hook r "after" st2.index (priceOf e2 r) (posOf e2 rc.sym).qty (posOf e2 rc.sym).pnl)
   setStrat e3 r (fun s => { s with cachedPrice := none, index := s.index + 1 })
+
+/-- `_execute` -/
+def executeStrategy (fuel : Nat) (e : Engine M) (r : Nat) : Engine M :=
+  if e.err.isSome then e else
+  let e2 := check u fuel (beforeStep u e r) r
+  if e2.err.isSome then e2 else afterStep u e2 r
 
 /-! ### matching -/
 
@@ -611,6 +625,16 @@ def simulateMinute (fuel : Nat) (e : Engine M) (sym : Nat) (real : Candle) : Eng
   let e3 := setCurrentPrice e2 sym real.c
   checkLiquidation u e3 sym real
 
+/-- the re-selection of the fast simulator after a fill: the orders inside the chunk's aggregate candle, sorted
+    along what remains of the path (`rest` of this minute, then the remaining minutes); orders the sort leaves
+    out (reachable only through a gap) keep their place at the end -/
+def chunkReselect (sym : Nat) (real : Candle) (more : List Candle) (e : Engine M) (rest : Candle) : List Nat :=
+  let os := executingOrders e sym real
+  if os.length > 1 then
+    let s := sortExecutionOrders e os (rest :: more)
+    s ++ os.filter (fun o => !s.contains o)
+  else os
+
 /-- `_simulate_price_change_effect_multiple_candles(short_timeframes_candles, exchange, symbol)` -/
 def simulateChunk (fuel : Nat) (e : Engine M) (sym : Nat) (cs : List Candle) : Engine M :=
   if e.err.isSome then e else
@@ -621,7 +645,9 @@ def simulateChunk (fuel : Nat) (e : Engine M) (sym : Nat) (cs : List Candle) : E
     let e1 :=
       if os.length > 0 then
         let sorted := if os.length > 1 then sortExecutionOrders e os cs else os
-        -- per-minute loop on candles extended to the previous close; re-selection on the aggregate, unsorted
+        -- per-minute loop on candles extended to the previous close; re-selection on the aggregate, sorted along
+        -- the path that remains (the rest of this minute, then the remaining raw minutes); what the sort leaves
+        -- out stays at the end in registry order
         let rec perMinute (rest : List Candle) (prev : Option Candle) (e : Engine M) (cands : List Nat) : Engine M :=
           match rest with
           | [] => e
@@ -630,13 +656,13 @@ def simulateChunk (fuel : Nat) (e : Engine M) (sym : Nat) (cs : List Candle) : E
             let cur : Candle := match prev with
               | some p => { c with h := maxR c.h p.c, l := minR c.l p.c }
               | none => c
-            let resel := fun (e : Engine M) (_ : Candle) => executingOrders e sym real
+            let resel := chunkReselect sym real more
             let (e1, cur') := matchLoop u fuel e sym cur cands resel true
             if e1.err.isSome then e1 else
             let e2 := addCandle e1 sym 1 c
             let e3 := setCurrentPrice e2 sym cur'.c
             -- the candidate list carried to the next minute is the last re-selection (or the sorted one)
-            let cands' := if e1.log.length = e.log.length then cands else executingOrders e1 sym real
+            let cands' := if e1.log.length = e.log.length then cands else resel e1 cur'
             perMinute more (some c) e3 cands'
         perMinute cs none e sorted
       else e
